@@ -95,6 +95,7 @@ type call struct {
 	kind      string
 	unordered bool // result bytes depend on Go map iteration order: compare byte histograms
 	heavy     bool // see heavyBytes
+	retain    bool // keep the returned value and compare it AGAIN later (before the next run of this call and at the end of the phase)
 	bigLz4    bool // an LZ4 compression of more than 64 KiB: also counted in bigLz4Inside
 	fn        func() (interface{}, error)
 
@@ -310,7 +311,7 @@ func (b *builder) frameOps(id int, codec frame.Codec, fc frameCase) {
 		src := bytes.NewReader(enc)
 		rf, err := raw.DecodeRawFrame(src)
 		return decoded{rf, src.Len()}, err
-	})
+	}).retain = true
 	rf2 := &frame.RawFrame{Header: headerCopy(refHeader), Body: cp(enc[hl:])}
 	b.add(id, "ConvertFromRawFrame", k, false, func() (interface{}, error) {
 		f, err := raw.ConvertFromRawFrame(rf2)
@@ -345,7 +346,7 @@ func (b *builder) frameOps(id int, codec frame.Codec, fc frameCase) {
 		}
 		body, err := raw.DecodeRawBody(h, src)
 		return decoded{[]interface{}{h, body}, src.Len()}, err
-	})
+	}).retain = true
 	b.add(id, "DecodeHeader+DiscardBody", k, false, func() (interface{}, error) {
 		src := bytes.NewReader(enc)
 		h, err := raw.DecodeHeader(src)
@@ -390,7 +391,7 @@ func (b *builder) segmentOps(id int, codec segment.Codec, sc segCase) {
 		src := bytes.NewReader(enc)
 		s, err := codec.DecodeSegment(src)
 		return decoded{s, src.Len()}, err
-	})
+	}).retain = true
 	// two segments back to back in one stream, as on a connection
 	enc2 := append(cp(enc), enc...)
 	b.add(id, "DecodeSegment×2", sc.kind, false, func() (interface{}, error) {
@@ -531,6 +532,58 @@ func (b *builder) invalidOps(r *mon.Rand) {
 	}
 }
 
+// failingWriter fails on its n-th Write (1-based) and accepts the others.
+type failingWriter struct {
+	n, seen int
+	buf     bytes.Buffer
+}
+
+func (w *failingWriter) Write(p []byte) (int, error) {
+	w.seen++
+	if w.seen == w.n {
+		return 0, fmt.Errorf("failingWriter: write #%d refused", w.n)
+	}
+	return w.buf.Write(p)
+}
+
+// poisonOps: compressed EncodeFrame calls that FAIL AFTER the body was encoded and compressed (the header is
+// rejected: unsupported version with the COMPRESSED flag set by hand; or the destination refuses a write),
+// interleaved in every goroutine's list with the valid compressed encodes. Their reference is the error
+// (plus whatever reached the writer). Error paths are where scratch buffers get released twice or not at all.
+func (b *builder) poisonOps(r *mon.Rand) {
+	type fc struct {
+		id    int
+		codec frame.RawCodec
+		name  string
+	}
+	for _, c := range []fc{{idLz4, fcLz4, "lz4"}, {idSnappy, fcSnappy, "snappy"}} {
+		c := c
+		// (1) unsupported protocol version, COMPRESSED flag, body encodes fine
+		var msg message.Message = &message.Options{}
+		if r.Bool() {
+			msg = &message.AuthResponse{Token: r.Bytes(1 + r.Intn(40))}
+		}
+		f := frame.NewFrame(v4, int16(r.Intn(1000)), msg)
+		f.Header.Version = pick(r, primitive.ProtocolVersion(6), primitive.ProtocolVersion(7), primitive.ProtocolVersion(1))
+		f.Header.Flags = f.Header.Flags.Add(primitive.HeaderFlagCompressed)
+		b.add(c.id, "EncodeFrame", fmt.Sprintf("POISON/compressed+version%d", f.Header.Version), false, func() (interface{}, error) {
+			var buf bytes.Buffer
+			err := c.codec.EncodeFrame(f, &buf)
+			return buf.Bytes(), err
+		})
+		// (2) a valid compressed frame into a writer that refuses its n-th write (1..5: inside the header; 6: the body)
+		q := &message.Query{Query: text(r, 40+r.Intn(200)), Options: &message.QueryOptions{Consistency: primitive.ConsistencyLevelOne}}
+		f2 := frame.NewFrame(pick(r, v3, v4, dse1), int16(r.Intn(1000)), q)
+		f2.SetCompress(true)
+		n := pick(r, 1, 2, 3, 5, 6)
+		b.add(c.id, "EncodeFrame", fmt.Sprintf("POISON/compressed+writer-fails-at-%d", n), false, func() (interface{}, error) {
+			w := &failingWriter{n: n}
+			err := c.codec.EncodeFrame(f2, w)
+			return w.buf.Bytes(), err
+		})
+	}
+}
+
 type bodyCompressor interface {
 	CompressWithLength(source io.Reader, dest io.Writer) error
 	DecompressWithLength(source io.Reader, dest io.Writer) error
@@ -643,6 +696,7 @@ func buildCalls(seed int64, g int) []*call {
 	if g%4 == 3 {
 		b.invalidOps(r)
 	}
+	b.poisonOps(r)
 	inputs := []struct {
 		kind string
 		data []byte
@@ -758,7 +812,7 @@ func buildBigCalls(seed int64, g int) []*call {
 			src := bytes.NewReader(enc3)
 			df, err := fcLz4.DecodeFrame(src)
 			return decoded{df, src.Len()}, err
-		})
+		}).retain = true
 	}
 	// (d) a segment with a payload of 70000..131071 bytes through the lz4 segment codec
 	kind4, data4 := bigInput(r, g, size(segment.MaxPayloadLength))
@@ -777,7 +831,35 @@ func buildBigCalls(seed int64, g int) []*call {
 			src := bytes.NewReader(enc4)
 			ds, err := scLz4.DecodeSegment(src)
 			return decoded{ds, src.Len()}, err
+		}).retain = true
+	}
+	// (f) incompressible payloads of 32 KiB and more through the lz4 segment codec: they are stored uncompressed
+	// (header uncompressed-length = 0), a branch of its own in the decoder; the decoded value is retained
+	for k := 0; k < 2; k++ {
+		n := 32768 + r.Intn(32768)
+		if k == 1 && g%2 == 1 {
+			n = 65537 + r.Intn(segment.MaxPayloadLength-65537+1)
+		}
+		rseg := &segment.Segment{Header: &segment.Header{IsSelfContained: k == 0}, Payload: &segment.Payload{UncompressedData: r.Bytes(n)}}
+		rkind := fmt.Sprintf("random-incompressible-%dk", n>>10)
+		from = len(b.calls)
+		resR, okR := b.addRun(idBigSegLz4, "EncodeSegment", rkind, false, func() (interface{}, error) {
+			var buf bytes.Buffer
+			err := scLz4.EncodeSegment(rseg, &buf)
+			buf.WriteString("|" + segDump(rseg))
+			return buf.Bytes(), err
 		})
+		if n > 1<<16 {
+			mark(from, "EncodeSegment")
+		}
+		if okR {
+			encR := resR[:bytes.LastIndexByte(resR, '|')]
+			b.add(idBigSegLz4, "DecodeSegment", rkind, false, func() (interface{}, error) {
+				src := bytes.NewReader(encR)
+				ds, err := scLz4.DecodeSegment(src)
+				return decoded{ds, src.Len()}, err
+			}).retain = true
+		}
 	}
 	// (e) snappy with the same kind of input, for symmetry
 	kind5, data5 := bigInput(r, g+1, size(140<<10))
@@ -889,6 +971,21 @@ func stress(c *mon.Ctx, label string, sets [][]*call, M, rounds, heavyEvery int,
 					order = append(order, i)
 				}
 			}
+			retained := make([]interface{}, len(cs))
+			hasRetained := make([]bool, len(cs))
+			recheck := func(i, round int, when string) {
+				cl := cs[i]
+				if !cl.same(retained[i], "") {
+					lo.bad++
+					name := sharedList[cl.codec].name
+					c.Violation("mismatch/"+name+"/"+cl.op+"/retained-result", map[string]interface{}{
+						"what":  "the value the call returned was equal to the sequential result when it returned and is not any more (" + when + "): it shares memory with something the codec reuses",
+						"build": label, "race_build": raceEnabled, "seed": c.Seed, "tier": c.Tier, "M": M, "goroutine": g, "round": round, "call": i,
+						"codec": name, "op": cl.op, "input_kind": cl.kind, "sequential": show(cl.want), "retained_now": show(retained[i]),
+					})
+				}
+				hasRetained[i] = false
+			}
 			<-start // barrier: everybody starts together
 			for round := 0; round < rounds; round++ {
 				for i := len(order) - 1; i > 0; i-- {
@@ -899,6 +996,9 @@ func stress(c *mon.Ctx, label string, sets [][]*call, M, rounds, heavyEvery int,
 					cl := cs[i]
 					if cl.heavy && heavyEvery > 1 && round > 0 && r.Intn(heavyEvery) != 0 {
 						continue
+					}
+					if hasRetained[i] {
+						recheck(i, round, "checked again one round later")
 					}
 					res, errs, ov, bigOv := cl.exec()
 					if bigOv > lo.bigMax {
@@ -919,7 +1019,14 @@ func stress(c *mon.Ctx, label string, sets [][]*call, M, rounds, heavyEvery int,
 							"concurrent": show(res), "concurrent_err": errs, "first_diff_offset": firstDiff(cl.want, res),
 							"overlap_at_entry": ov,
 						})
+					} else if cl.retain && errs == "" {
+						retained[i], hasRetained[i] = res, true
 					}
+				}
+			}
+			for i := range cs {
+				if hasRetained[i] {
+					recheck(i, rounds, "checked again at the end of the phase")
 				}
 			}
 			locals[g] = lo
